@@ -45,7 +45,7 @@ def verify(wt):
     res = {}
     demos = demo_files(wt)
     res["demo_files"] = demos
-    names = [os.path.splitext(os.path.basename(d))[0] for d in demos if d.startswith("tests/")]
+    names = [os.path.splitext(os.path.basename(d))[0] for d in demos if d.startswith("tests/") and d.endswith(".rs") and d.count("/") == 1]
     unit = [os.path.splitext(os.path.basename(d))[0] for d in demos if d.startswith("src/demo_")]
     def run_demo():
         outs = []
